@@ -74,17 +74,19 @@ func (d *DefaultMetricLogWriter) Write(ts uint64, items []*base.MetricItem) erro
 		return nil
 	}
 	if timeSec > d.latestOpSec {
+		// Roll first on a new day, so that the index entry of this second goes
+		// to the index of the file that will hold its lines.
+		if d.isNewDay(d.latestOpSec, timeSec) {
+			if err := d.rollToNextFile(ts); err != nil {
+				return errors.Wrap(err, "failed to roll the metric log")
+			}
+		}
 		pos, err := util.FilePosition(d.curMetricFile)
 		if err != nil {
 			return errors.Wrap(err, "cannot get current pos of the metric file")
 		}
 		if err = d.writeIndex(timeSec, pos); err != nil {
 			return errors.Wrap(err, "cannot write metric idx file")
-		}
-		if d.isNewDay(d.latestOpSec, timeSec) {
-			if err = d.rollToNextFile(ts); err != nil {
-				return errors.Wrap(err, "failed to roll the metric log")
-			}
 		}
 	}
 	// Write and flush
